@@ -721,6 +721,7 @@ func init() {
 }
 
 func init() {
+	registerFlate()
 	load := func(r *Run, c *frame, fn *ssa.Function, a []Value) Value {
 		p := a[0].(*Value)
 		if p == nil {
